@@ -1154,6 +1154,37 @@ fn run_deep(out: &mut Out, rng: &mut Rng, work: &str) -> BTreeMap<String, u64> {
 			}
 		}
 	}
+	// a third small tree for header sync in overlapping chunks: m1[10]-m2[10] and f1[1]-f2[1]-f3[1]-f4[100]
+	let mut small: Vec<usize> = vec![];
+	{
+		let mut ok = true;
+		let mut add = |kit: &mut Kit, parent: usize, diff: u64, small: &mut Vec<usize>, ok: &mut bool| -> usize {
+			match kit.new_block(parent, diff, &[]) {
+				Ok(id) => {
+					small.push(id);
+					id
+				}
+				Err(e) => {
+					complain(format!("header-sync tree: {}", e));
+					*ok = false;
+					0
+				}
+			}
+		};
+		let m1 = add(&mut kit, 0, 10, &mut small, &mut ok);
+		if ok {
+			add(&mut kit, m1, 10, &mut small, &mut ok);
+		}
+		let mut f = 0;
+		for d in [1u64, 1, 1, 100] {
+			if ok {
+				f = add(&mut kit, f, d, &mut small, &mut ok);
+			}
+		}
+		if !ok {
+			small.clear();
+		}
+	}
 	for l in kit.out_lines(0) {
 		out.raw(&l);
 	}
@@ -1229,6 +1260,64 @@ fn run_deep(out: &mut Out, rng: &mut Rng, work: &str) -> BTreeMap<String, u64> {
 				n_orph,
 				s2.head_str(&kit),
 				s3.head_str(&kit)
+			));
+		}
+	}
+	// (3) header sync in overlapping chunks (a chunk starting with a known header and ending below
+	// the current header head), then bodies children-first: must end on the most-work chain
+	if small.len() == 6 {
+		let (m1, m2, f1, f2, f3, f4) = (small[0], small[1], small[2], small[3], small[4], small[5]);
+		let s4 = Subject::new(&format!("{}/deep_s4", work), &kit.genesis);
+		out.raw("chain new s4");
+		for chunk in [vec![f1], vec![m1, m2], vec![f1, f2, f3], vec![f4]] {
+			let hs: Vec<grin_core::core::BlockHeader> = chunk.iter().map(|i| kit.blks[*i].block.header.clone()).collect();
+			let r = s4.sync_headers(&hs);
+			for i in &chunk {
+				// honest headers: a batch behaves like its headers delivered one by one
+				out.line(&format!("chain hdr s4 b{}", i), &r);
+			}
+			out.line("chain obs s4", &s4.obs(&kit));
+		}
+		deliver(out, &s4, "s4", &[m1, m2, f1, f4, f3, f2], 1);
+		let s5 = Subject::new(&format!("{}/deep_s5", work), &kit.genesis);
+		out.raw("chain new s5");
+		deliver(out, &s5, "s5", &[m1, m2, f1, f2, f3, f4], 1);
+		if s4.obs(&kit) != s5.obs(&kit) || s4.roots() != s5.roots() {
+			out.raw(&format!(
+				"#ORACLE-FAIL C03 headers synced in overlapping chunks, bodies children-first: the node ends on [{}] but in-order delivery ends on [{}]",
+				s4.head_str(&kit),
+				s5.head_str(&kit)
+			));
+		}
+		*stats.entry("deep:header-sync-chunks".into()).or_insert(0) += 4;
+		// (4) a same-hash twin: the genuine header of fork block f2 with the body of another block
+		// (the block hash covers the header only). It must be refused and leave NOTHING behind: the
+		// genuine f2 and the rest of its fork are accepted afterwards and the node reorganises onto f4
+		let s6 = Subject::new(&format!("{}/deep_s6", work), &kit.genesis);
+		out.raw("chain new s6");
+		deliver(out, &s6, "s6", &[m1, m2, f1], 1);
+		let mut twin = kit.blks[m2].block.clone();
+		twin.header = kit.blks[f2].block.header.clone();
+		let before = (s6.obs(&kit), s6.roots());
+		let r = s6.deliver_block(&twin);
+		let after = (s6.obs(&kit), s6.roots());
+		*stats.entry(format!("deep:same-hash-twin-result:{}", r)).or_insert(0) += 1;
+		if r.starts_with("ok") {
+			out.raw(&format!("#ORACLE-FAIL C06 a block made of the header of b{} and the body of b{} was accepted: {}", f2, m2, r));
+		}
+		if before != after {
+			out.raw(&format!(
+				"#ORACLE-FAIL C06 a refused same-hash twin of b{} changed the chain state: before=[{}] after=[{}]",
+				f2, before.0, after.0
+			));
+		}
+		deliver(out, &s6, "s6", &[f2, f3, f4], 1);
+		if s6.obs(&kit) != s5.obs(&kit) || s6.roots() != s5.roots() {
+			out.raw(&format!(
+				"#ORACLE-FAIL C06 after a refused same-hash twin of b{} the node ends on [{}] but a node that never saw the twin ends on [{}]",
+				f2,
+				s6.head_str(&kit),
+				s5.head_str(&kit)
 			));
 		}
 	}
